@@ -7,9 +7,9 @@
     Lock/Unlock pair the signaller blocks on the mutex until the waiter is inside Wait
     ([C10_no_lost_wakeup]).
 
-    Also: the Go text of waitFor / signal / the worker loop / the call order of encodeRow's
-    macroblock loop that the L1 and L2 models transcribe; compared with the regenerated
-    text (Gen/RowSyncSrc.v) by Properties/C10.v. *)
+    Also: the sequences of synchronisation operations of waitFor / signal and the order of
+    the two calls in encodeRow's macroblock loop that the L2 model has transitions for;
+    compared with the regenerated sequences (Gen/RowSyncSrc.v) by Properties/C10.v. *)
 From Coq Require Import List Arith Lia Bool String.
 From Webp Require Import Conc.ConcWaitSignal.
 Import ListNotations.
@@ -73,23 +73,27 @@ Proof.
   eexists. split; [vm_compute; reflexivity|]. split; [reflexivity|]. split; [vm_compute; reflexivity|vm_compute; discriminate].
 Qed.
 
-(** ** the transcribed Go text *)
+(** ** the synchronisation-operation sequences the L2 model has one transition for
+
+    What is compared with the source is NOT its text but the sequence of operations on the
+    row's done / waiters / mu / cond, with the block structure and comparison operator around
+    them (tools/gosrc2v/rowsyncsrc.go); local names, hook lines, logging and any statement
+    that performs no such operation do not appear.  Each element below is one phase of
+    [ConcWaitSignal]: WFast (load, >=, return), WInc, WLock, WChk (load, <) / WSleep (Wait),
+    WUnl, WDec; SStore, SLoad (load, >), SLock, SUnlock, SBcast. *)
 Open Scope string_scope.
-Definition modelled_waitFor_body : list string :=
-  ["r := &rs.rows[y]";
-   "if r.done.Load() >= needed { return }";
-   "r.waiters.Add(1)";
-   "r.mu.Lock()";
-   "for r.done.Load() < needed { r.cond.Wait() }";
-   "r.mu.Unlock()";
-   "r.waiters.Add(-1)"].
-Definition modelled_signal_body : list string :=
-  ["r := &rs.rows[y]";
-   "r.done.Store(done)";
-   "if r.waiters.Load() > 0 { r.mu.Lock() r.mu.Unlock() r.cond.Broadcast() }"].
-Definition modelled_worker_body : list string :=
-  ["defer wg.Done()";
-   "for { y := int(ps.nextRow.Add(1) - 1) if y >= mbH { return } enc.encodeRow(w, y, topY, topU, topV, topModes, topNz, topNzDC, rs) }"].
-Definition modelled_encodeRow_mb_calls : list string :=
-  ["rs.waitFor"; "importBlockParallel"; "fillPredContextParallel"; "pickBestModeParallel";
-   "encodeResidualsParallel"; "reconstructMBParallel"; "exportParallel"; "updateNZContextParallel"; "rs.signal"].
+Definition modelled_waitFor_ops : list string :=
+  ["if["; "done.Load"; ">="; "]{"; "return"; "}";
+   "waiters.Add(1)";
+   "mu.Lock";
+   "for["; "done.Load"; "<"; "]{"; "cond.Wait"; "}";
+   "mu.Unlock";
+   "waiters.Add(-1)"].
+Definition modelled_signal_ops : list string :=
+  ["done.Store";
+   "if["; "waiters.Load"; ">"; "]{"; "mu.Lock"; "mu.Unlock"; "cond.Broadcast"; "}"].
+(** the variant refuted above, for reference: the same with the pair removed *)
+Definition nolock_signal_ops : list string :=
+  ["done.Store"; "if["; "waiters.Load"; ">"; "]{"; "cond.Broadcast"; "}"].
+(** encodeRow's macroblock loop waits before it signals, once each per macroblock *)
+Definition modelled_encodeRow_sync_calls : list string := ["waitFor"; "signal"].
